@@ -51,6 +51,11 @@ def validate_inputs(
     active_nodes, active_subgraph = _resolve_active_scope(graph, selected)
     inputs_spec = _resolve_effective_input_spec(graph, selected, active_scope=(active_nodes, active_subgraph))
     cycle_ep_params = {p for params in inputs_spec.entrypoints.values() for p in params}
+    # A bound cycle seed no longer appears among the entry points (it needs no
+    # user value), but it still bootstraps the cycle: it is not an injected
+    # override of a computed value.
+    bound_seeds = _bound_cycle_seeds(graph, selected, (active_nodes, active_subgraph))
+    cycle_ep_params |= bound_seeds
 
     # Step 1: Merge bound + provided
     merged = {**inputs_spec.bound, **values}
@@ -62,7 +67,7 @@ def validate_inputs(
     expected_inputs = set(inputs_spec.all)
     edge_produced = get_edge_produced_values(active_subgraph)
     interrupt_outputs = _get_interrupt_outputs(active_nodes)
-    unexpected = provided - expected_inputs - interrupt_outputs
+    unexpected = provided - expected_inputs - interrupt_outputs - bound_seeds
     internal_edge = unexpected & edge_produced
     unknown = unexpected - edge_produced
 
@@ -111,6 +116,28 @@ def validate_inputs(
         provided=list(provided),
         message=message,
     )
+
+
+def _bound_cycle_seeds(
+    graph: Graph,
+    selected: tuple[str, ...] | None,
+    active_scope: tuple[dict[str, HyperNode], Any],
+) -> set[str]:
+    """Cycle entry parameters that are pre-filled by graph.bind()."""
+    if not graph._bound:
+        return set()
+
+    from hypergraph.graph.input_spec import compute_input_spec
+
+    unbound_spec = compute_input_spec(
+        graph._nodes,
+        graph._nx_graph,
+        {},
+        entrypoints=graph._entrypoints,
+        selected=selected,
+        _active_scope=active_scope,
+    )
+    return {p for params in unbound_spec.entrypoints.values() for p in params if p in graph._bound}
 
 
 def _validate_cycle_entry(
